@@ -190,7 +190,7 @@ pub struct Spec {
 const TEXT_WORDS: &[&str] = &[
     "add", "the", "and", "then", "mix", "stir", "well", "until", "golden", "Bake", "slowly", "crème", "über", "漢字", "it", "to", "a", "with",
     "chopped", "finely,", "done.", "ok!", "half;", "(optional)", "a:b", "x|y", "50%", "this&that", "why?", "a+b", "n*m", "and/or", "end.",
-    "😀", "e\u{301}clair",
+    "😀", "e\u{301}clair", "\u{2212}18", "½", "3\u{2212}4", "１２", "x²",
 ];
 const SAFE_AFTER_DIGIT: &[&str] = &["eggs", "times", "large", "pieces", "and", "x", "rounds"];
 const NAME_WORDS: &[&str] = &[
